@@ -3,7 +3,6 @@ import json
 import os
 
 META = {
-    "disabled": True,
     "level": "model_checking",
     "text": "The five submission protocols (beacon DKG result, relay entry, tECDSA DKG result, DKG result approval, inactivity "
             "claim) are one TLA+ specification: slot functions transcribed from the code and a submitter process (Begin / "
